@@ -2,6 +2,7 @@ package data
 
 import (
 	"fmt"
+	"math"
 	"reflect"
 	"time"
 	"unicode"
@@ -54,6 +55,10 @@ func NewWith(convert StructOptions, value interface{}) Value {
 	case reflect.Int, reflect.Int8, reflect.Int16, reflect.Int32, reflect.Int64:
 		return Int(v.Int())
 	case reflect.Uint, reflect.Uint8, reflect.Uint16, reflect.Uint32, reflect.Uint64:
+		// a value beyond the int64 range keeps its magnitude, as a float
+		if u := v.Uint(); u > math.MaxInt64 {
+			return Float(float64(u))
+		}
 		return Int(v.Uint())
 	case reflect.Float32, reflect.Float64:
 		return Float(v.Float())
